@@ -137,6 +137,21 @@ Theorem chain_keeps : forall (A : Type) (fs : list (named A)) (old : named A) k 
 Proof. exact @chain_keeps_lemma. Qed.
 Print Assumptions chain_keeps.
 
+(* module-wise re-creation (encoder, head, each feature extractor separately, local names) equals
+   re-creation of the whole network's named parameters (names behind per-module prefixes) *)
+Theorem preserve_modulewise : forall (A : Type) (o1 o2 n1 n2 : named A),
+  (forall k, In k (map fst n1) -> ~ In k (map fst o2)) ->
+  (forall k, In k (map fst n2) -> ~ In k (map fst o1)) ->
+  preserve (o1 ++ o2) (n1 ++ n2) = preserve o1 n1 ++ preserve o2 n2.
+Proof. exact @preserve_app_lemma. Qed.
+Print Assumptions preserve_modulewise.
+
+Theorem preserve_prefix : forall (A : Type) (pre : string) (old new : named A),
+  preserve (rename (String.append pre) old) (rename (String.append pre) new) =
+  rename (String.append pre) (preserve old new).
+Proof. intros A pre old new. apply preserve_rename_lemma. intros a b. apply append_inj. Qed.
+Print Assumptions preserve_prefix.
+
 (* the behaviour before the repairs 99d19d3 / 6cedd7f (resized "norm" parameters skipped) violates
    the property: LayerNorm weight 2 -> 3 loses its learned values *)
 Theorem preserve_norm_refuted :
